@@ -343,7 +343,7 @@ func runGrammarProperty(c *Ctx, fam []*family.Grammar, spec *GramSpec) error {
 	// broken variants
 	for _, gg := range gens {
 		for vn, msg := range gg.Broken {
-			f := &Finding{Property: c.Prop, Label: gg.Label(), Entry: "generate", PkgPath: gg.Pkg + "/" + vn, Kind: "build",
+			f := &Finding{Property: c.Prop, Tier: c.Tier, Seed: c.Seed, Label: gg.Label(), Entry: "generate", PkgPath: gg.Pkg + "/" + vn, Kind: "build",
 				AssertID: "generates-and-compiles/" + vn, Msg: msg, Meta: gg.Meta(), Confirmed: true}
 			if spec.BrokenIsViolation {
 				c.Findings = append(c.Findings, f)
@@ -379,7 +379,7 @@ func runGrammarProperty(c *Ctx, fam []*family.Grammar, spec *GramSpec) error {
 						}
 						hit = true
 						gg.Broken[vn] = "generated file does not compile: " + trunc(msg, 400)
-						f := &Finding{Property: c.Prop, Label: gg.Label(), Entry: "generate", PkgPath: gg.Pkg + "/" + vn, Kind: "build",
+						f := &Finding{Property: c.Prop, Tier: c.Tier, Seed: c.Seed, Label: gg.Label(), Entry: "generate", PkgPath: gg.Pkg + "/" + vn, Kind: "build",
 							AssertID: "generates-and-compiles/" + vn, Msg: gg.Broken[vn], Meta: gg.Meta(), Confirmed: true}
 						if spec.BrokenIsViolation {
 							c.Findings = append(c.Findings, f)
@@ -441,4 +441,73 @@ func runGrammarProperty(c *Ctx, fam []*family.Grammar, spec *GramSpec) error {
 func (gg *GenGrammar) OK(vn string) bool {
 	_, bad := gg.Broken[vn]
 	return !bad
+}
+
+// gramSpecs maps a generated-parser property to its family and harness specification.
+var gramSpecs = map[string]func(c *Ctx) ([]*family.Grammar, *GramSpec){}
+
+func registerGramChecks() {
+	for prop, mk := range gramSpecs {
+		prop, mk := prop, mk
+		checks[prop] = func(c *Ctx) error {
+			fam, spec := mk(c)
+			return runGrammarProperty(c, fam, spec)
+		}
+		replayers[prop] = func(ws *Workspace, f *Finding) (*ReplayOutcome, error) { return replayGrammar(ws, prop, mk, f) }
+	}
+}
+
+// replayGrammar regenerates the grammar of a recorded finding with the peg built from the
+// current working tree and runs the recorded case natively.
+func replayGrammar(ws *Workspace, prop string, mk func(c *Ctx) ([]*family.Grammar, *GramSpec), f *Finding) (*ReplayOutcome, error) {
+	hash, _ := f.Meta["hash"].(string)
+	var g *family.Grammar
+	var spec *GramSpec
+	for _, tier := range []string{f.Tier, "quick", "thorough"} {
+		if tier == "" {
+			continue
+		}
+		c := &Ctx{Prop: prop, Tier: tier, Seed: f.Seed, WS: ws, Bounds: map[string]any{}}
+		fam, sp := mk(c)
+		for _, cand := range fam {
+			if cand.Hash() == hash {
+				g, spec = cand, sp
+				break
+			}
+		}
+		if g != nil {
+			break
+		}
+	}
+	if g == nil {
+		return nil, fmt.Errorf("grammar %s not found in the %s family (tier %q seed %d)", hash, prop, f.Tier, f.Seed)
+	}
+	if err := ws.BuildPeg(); err != nil {
+		return nil, err
+	}
+	if err := ws.initVW(); err != nil {
+		return nil, err
+	}
+	gg := ws.generate(0, g, spec)
+	o := &ReplayOutcome{Entry: f.Entry}
+	if f.Kind == "build" {
+		vn := strings.TrimPrefix(f.AssertID, "generates-and-compiles/")
+		if msg, bad := gg.Broken[vn]; bad {
+			o.Failed = append(o.Failed, f.AssertID)
+			o.Panic = msg
+			return o, nil
+		}
+		out, err := run(ws.vwDir(), "go", "build", "./"+filepath.Base(gg.Dir)+"/"+vn)
+		if err != nil {
+			o.Failed = append(o.Failed, f.AssertID)
+			o.Panic = trunc(out, 400)
+		}
+		return o, nil
+	}
+	gg.writeHarness(spec)
+	var entries []string
+	for _, e := range spec.Entries(gg) {
+		entries = append(entries, e.Name)
+	}
+	return replayInPkg(ws.vwDir(), gg.Pkg+"/h", entries, f)
 }
